@@ -818,6 +818,7 @@ class PredEval:
     def __init__(self, prog):
         self.prog = prog
         self.memo = {}
+        self._sw = {}
 
     def call(self, key, args, depth=0):
         mk = (key, tuple(args))
@@ -864,18 +865,25 @@ class PredEval:
                     res = None
                     break
                 d = int(d)
-                nxt = t["otherwise"]
-                for v, tb in t["targets"]:
-                    if v == d:
-                        nxt = tb
-                bb = nxt
+                tid = id(t)
+                if tid not in self._sw:
+                    self._sw[tid] = {v: tb for v, tb in t["targets"]}
+                bb = self._sw[tid].get(d, t["otherwise"])
                 continue
             if k == "call":
                 name = callee_name(t)
                 av = [self._op(b, a, env) for a in t["args"]]
                 r = None
-                if name.endswith("str>::contains") and len(av) == 2 and isinstance(av[0], tuple) and av[0][0] == "str" and isinstance(av[1], int):
+                if t.get("target") is None and ("panic" in name or "unwrap_failed" in name or "expect_failed" in name):
+                    res = ("diverges", name)
+                    break
+                r = self._std_call(name, av, depth)
+                if r is not None:
+                    pass
+                elif name.endswith("str>::contains") and len(av) == 2 and isinstance(av[0], tuple) and av[0][0] == "str" and isinstance(av[1], int):
                     r = chr(av[1]) in av[0][1]
+                elif name.endswith("[T]>::contains") and len(av) == 2 and isinstance(av[0], tuple) and av[0][0] == "arr" and isinstance(av[1], int):
+                    r = av[1] in av[0][1]
                 elif name in self.prog.fns and all(a is not None for a in av):
                     r = self.call(name, av, depth + 1)
                 elif (name.endswith("::eq") or name.endswith("::ne")) and len(av) == 2 and all(isinstance(a, (int, bool)) for a in av):
@@ -891,8 +899,56 @@ class PredEval:
         self.memo[mk] = res
         return res
 
+    def _std_call(self, name, av, depth):
+        """Option combinators over evaluated values; closures are ('closure', key, upvars)."""
+        def is_opt(v):
+            return isinstance(v, tuple) and v and v[0] in ("some", "none")
+
+        def call_clo(c, args):
+            if not (isinstance(c, tuple) and c and c[0] == "closure"):
+                if isinstance(c, tuple) and c and c[0] == "fn":
+                    return self.call(c[1], list(args), depth + 1)
+                return None
+            return self.call(c[1], [("tuple", c[2])] + list(args), depth + 1)
+        if not av or any(a is None for a in av):
+            return None
+        if name.endswith("Option::<T>::or_else") and is_opt(av[0]):
+            return av[0] if av[0][0] == "some" else call_clo(av[1], [])
+        if name.endswith("Option::<T>::or") and is_opt(av[0]) and is_opt(av[1]):
+            return av[0] if av[0][0] == "some" else av[1]
+        if name.endswith("Option::<T>::map") and is_opt(av[0]):
+            if av[0][0] == "none":
+                return ("none",)
+            r = call_clo(av[1], [av[0][1]])
+            return None if r is None else ("some", r)
+        if name.endswith("Option::<T>::and_then") and is_opt(av[0]):
+            return ("none",) if av[0][0] == "none" else call_clo(av[1], [av[0][1]])
+        if name.endswith("Option::<T>::filter") and is_opt(av[0]):
+            if av[0][0] == "none":
+                return ("none",)
+            r = call_clo(av[1], [av[0][1]])
+            return None if r is None else (av[0] if r else ("none",))
+        if name.endswith("Option::<T>::is_some") and is_opt(av[0]):
+            return av[0][0] == "some"
+        if name.endswith("Option::<T>::is_none") and is_opt(av[0]):
+            return av[0][0] == "none"
+        if (name.endswith("Option::<T>::unwrap_or") or name.endswith("Option::<T>::unwrap_or_default")) and is_opt(av[0]):
+            if av[0][0] == "some":
+                return av[0][1]
+            return av[1] if len(av) > 1 else 0
+        if name.endswith("Option::<&T>::copied") or name.endswith("Option::<&T>::cloned"):
+            return av[0] if is_opt(av[0]) else None
+        if name.endswith("::clone") and len(av) == 1:
+            return av[0]
+        if name.endswith("char::methods::<impl char>::is_ascii") and isinstance(av[0], int):
+            return av[0] < 0x80
+        return None
+
     def _op(self, b, op, env):
         if op["k"] == "const":
+            if "fn" in op:
+                p_ = op["fn"].get("resolved") or op["fn"]["path"]
+                return ("fn", p_) if p_ in self.prog.fns else None
             if "cp" in op:
                 return op["cp"]
             if "bool" in op:
@@ -901,12 +957,45 @@ class PredEval:
                 return op["int"]
             if "str" in op:
                 return ("str", op["str"])
+            if "array" in op:
+                return ("arr", tuple((x.get("cp") if isinstance(x, dict) else x) for x in op["array"]))
+            if "promoted" in op:
+                pb = b.promoted_body(op["promoted"])
+                if pb is not None:
+                    e = pb.expr_local(0)
+                    while e.k in ("ref", "deref"):
+                        e = e.a[0]
+                    if e.k == "const":
+                        if e.a[0][0] == "str":
+                            return ("str", e.a[0][1])
+                        if e.a[0][0] == "array":
+                            return ("arr", e.a[0][1])
+                        if e.a[0][0] in ("char", "int", "bool"):
+                            v = e.a[0][1]
+                            return ord(v) if isinstance(v, str) else v
+                    if e.k == "agg" and e.a[0] in ("array",):
+                        vals = []
+                        for x in e.a[1]:
+                            while x.k in ("ref", "deref"):
+                                x = x.a[0]
+                            if x.k != "const" or x.a[0][0] not in ("char", "int"):
+                                return None
+                            vals.append(ord(x.a[0][1]) if isinstance(x.a[0][1], str) else x.a[0][1])
+                        return ("arr", tuple(vals))
             return None
         p = op["place"]
         v = env.get(p["l"])
         for el in p["p"]:
             if el == "*":
                 continue            # refs of scalars are modelled by value
+            if isinstance(el, dict) and "f" in el and isinstance(v, tuple) and v and v[0] == "tuple" and el["f"] < len(v[1]):
+                v = v[1][el["f"]]
+                continue
+            if isinstance(el, dict) and "dc" in el and isinstance(v, tuple) and v and v[0] in ("some", "none"):
+                if (el.get("n") == "Some") != (v[0] == "some"):
+                    return None
+                v = ("tuple", (v[1],)) if v[0] == "some" else ("tuple", ())
+                continue
             return None
         return v
 
@@ -946,6 +1035,25 @@ class PredEval:
             return None if x is None else (not x)
         if k == "cast":
             return self._op(b, rv["op"], env)
+        if k == "discr":
+            p = rv["place"]
+            v = env.get(p["l"])
+            if any(el != "*" for el in p["p"]):
+                return None
+            if isinstance(v, tuple) and v and v[0] in ("some", "none"):
+                return 1 if v[0] == "some" else 0
+            return None
+        if k == "aggregate":
+            ops = [self._op(b, o, env) for o in rv["ops"]]
+            if any(o is None for o in ops):
+                return None
+            if rv["agg"] == "tuple":
+                return ("tuple", tuple(ops))
+            if rv["agg"] == "adt" and rv["adt"].endswith("option::Option"):
+                return ("some", ops[0]) if rv["variant"] == "Some" else ("none",)
+            if rv["agg"] == "closure":
+                return ("closure", rv["closure"], tuple(ops))
+            return None
         return None
 
     def char_set(self, key, domain):
@@ -961,3 +1069,65 @@ class PredEval:
 
 
 BENGALI_DOMAIN = [chr(c) for c in range(0x0980, 0x0A00)] + ["‌", "‍", "a", "Z", "0", " ", ".", "।", "॥"]
+
+
+# ---------------------------------------------------------------------------
+# path enumeration with on-the-fly evaluation and pruning of decided branches
+
+def known_switch_value(e):
+    """If the switch discriminant E has a statically known value: that integer, else None."""
+    e = strip_refs(e)
+    if e.k == "const" and e.a[0][0] in ("int", "bool"):
+        return int(e.a[0][1])
+    if e.k == "const" and e.a[0][0] == "char":
+        return ord(e.a[0][1])
+    if e.k == "discr":
+        x = strip_refs(e.a[0])
+        if x.k == "agg" and x.t is not None and "vidx" in x.t:
+            return x.t["vidx"]
+    if e.k == "un" and e.a[0] == "Not":
+        v = known_switch_value(e.a[1])
+        return None if v is None else int(not v)
+    return None
+
+
+def sym_paths(body, start=0, limit=20000, env=None):
+    """Acyclic normal paths start..return with the environment evaluated along the way; branches whose
+    discriminant is statically known on the path are not split.  Yields (path [(bb, vals|None)], env, conds)
+    with conds = [(discr E, vals, all_values, ty, bb)].  Raises PathLimit on loops / too many paths."""
+    out = []
+
+    def rec(b, path, env, conds, onpath):
+        if len(out) > limit:
+            raise PathLimit("too many paths")
+        if b in onpath:
+            raise PathLimit("loop")
+        env = body.eval_path([b], env)
+        t = body.blocks[b]["term"]
+        k = t["k"]
+        if k == "return":
+            out.append((path + [(b, None)], env, conds))
+            return
+        if k == "switch":
+            d = body.expr_operand(t["discr"], 0, env)
+            kv = known_switch_value(d)
+            allv = tuple(v for v, _ in t["targets"])
+            for (node, vals, tgt) in body.switch_edges(b):
+                if kv is not None:
+                    take = (kv in vals) if vals != "otherwise" else (kv not in allv)
+                    if not take:
+                        continue
+                    rec(tgt, path + [(b, vals)], env, conds, onpath | {b})
+                else:
+                    rec(tgt, path + [(b, vals)], env, conds + [(d, vals, allv, t["discr_ty"], b)], onpath | {b})
+            return
+        if k in ("goto", "call", "drop", "assert"):
+            if t.get("target") is None:
+                return
+            rec(t["target"], path + [(b, None)], env, conds, onpath | {b})
+            return
+        return
+    import sys
+    sys.setrecursionlimit(max(10000, sys.getrecursionlimit()))
+    rec(start, [], dict(env or {}), [], frozenset())
+    return out
